@@ -7,6 +7,7 @@ KERNEL = "Lean 4.33.0 kernel; axioms allowed in #print axioms: propext, Classica
 HARNESSES = {
     # name -> cargo package, test path of the driver inside the crate's lib test binary
     "merkle": {"crate": "astria-merkle", "test": "verif::driver"},
+    "composer": {"crate": "astria-composer", "test": "executor::bundle_factory::verif::driver"},
 }
 
 PROPS = {
@@ -33,5 +34,26 @@ PROPS = {
                         "soundness is in extractor form: a verified mutation yields an explicit SHA-256 collision; no collision-freedom axiom"],
         "explanation": "theorems: decode/verify total for every raw proof and hash function, extractor soundness, termination of the index walk; "
                        "correspondence: model = code on every generated line",
+    },
+    "C16": {
+        "level": "proof",
+        "lean_modules": ["Astria.Composer.Model", "Astria.Composer.Theorems", "Astria.Properties"],
+        "theorems": ["Astria.C16_exactly_once_in_order_within_limit", "Astria.C16_refusal"],
+        "harnesses": ["composer"],
+        "monitors": ["exactly_once_in_order", "size_bound", "refusal_iff", "refusal_is_noop", "dump_parse"],
+        "scope_regex": r"^composer ",
+        "nontrivial_regex": r"^composer (push \d+ \d+ \d+ => ok|popfin => \[|popnow => \[\d)",
+        "rule": "in-crate harness on the real BundleFactory (child module of executor::bundle_factory, reads the private fields): "
+                "sessions with max around the per-action overhead up to 1200 bytes, queue capacity 0..3 (every 7th 4..64), 5..60 ops "
+                "(thorough 10..120) of push (sizes at max, max±1, max/2, max/3, 2·max, random) / finished-pop / pop_now; after every op the "
+                "full factory state is dumped and diffed with the Lean model's state. non-trivial = an accepted push or a non-empty "
+                "emitted bundle; distinct = distinct trace lines (ids are unique per run)",
+        "trusted_base": [KERNEL, "hand-written model Astria/Composer/Model.lean tied to bundle_factory/mod.rs by the correspondence run",
+                         "harness /verif/harness/composer/mod.rs + Lean driver; prost encoded_len as the size measure (recomputed independently by the harness)"],
+        "assumptions": ["sizes are far below usize::MAX (saturating_add = +)",
+                        "the bundle size that is bounded is the sum of the actions' encoded lengths, as the crate defines it "
+                        "(the enclosing transaction's framing is not counted by the code nor the model)",
+                        "executor glue (select loop calling try_push/pop_now) is not modelled"],
+        "explanation": "invariant by induction over all op sequences; correspondence on full state dumps",
     },
 }
